@@ -258,7 +258,7 @@ _u4('C05', 'Proof (sequential model) that absence is never an error: is_absent_f
     'every Err of an operation implies a counted hard fault (or an invalid name / absent source).',
     not_covered=[CONC_NC, SHARD_NC, STACK_NC])
 _u4('C06', 'Proof of termination (decreases on every loop) and of closed-form bounds on the number of own filesystem calls: get <= 3, touch <= 1, set <= 11, put <= 13 outside '
-    'maintenance; collect <= 2+2L, prune <= 2+3L, maintenance <= 4+3L for L directory items read. No lock primitive exists in the stand-ins, so any call to one would not compile (undecided), '
+    'maintenance; collect <= 2+2L, prune <= 2+3L, maintenance <= 4+3L for L directory items read. The lock and wait primitives (File::lock*, try_lock*, unlock, libc::flock, thread::sleep, yield_now, spin_loop) exist as stand-ins whose precondition is `false`, so any call to one is a failed obligation, '
     'and no retry-until loop can be given a decreases measure.',
     not_covered=[CONC_NC, 'regenerate() terminates with probability 1 only', SHARD_NC, STACK_NC])
 _u4('C20', 'Proof that the step and open counts of get/touch/set/put outside maintenance are constants independent of the directory population (the postconditions are closed '
